@@ -148,7 +148,9 @@ def _frames(a):
                        'v': pd.Series(a['l'], dtype=object, index=idx)}, index=idx)
     rt = pd.DataFrame({'rid': pd.Series(['r%d' % i for i in range(len(a['r']))], dtype=object),
                        'w': pd.Series(a['r'], dtype=object),
-                       'ry': pd.Series([float(i) for i in range(len(a['r']))], dtype=float)})
+                       'ry': pd.Series([float(i) for i in range(len(a['r']))], dtype=float),
+                       # a plain right column named like the LEFT key (a key mix-up must show)
+                       'id': pd.Series(['rx%d' % i for i in range(len(a['r']))], dtype=object)})
     return lt, rt
 
 
@@ -189,7 +191,7 @@ class _Driver(object):
         lt, rt = _frames(a)
         lt0, rt0 = lt.copy(deep=True), rt.copy(deep=True)
         tok = WhitespaceTokenizer(return_set=not a['bag'])
-        louts, routs = (['lx', 'id', 'v', 'lx'] if ll else None), (['ry'] if rl else None)
+        louts, routs = (['lx', 'id', 'v', 'lx'] if ll else None), (['ry', 'rid', 'id', 'ry'] if rl else None)
         kw = dict(l_key_attr='id', r_key_attr='rid', l_join_attr='v', r_join_attr='w', threshold=a['t'])
         args_t = [lt, rt]
         expect = None
@@ -268,7 +270,8 @@ class _Driver(object):
                 return float('nan')
             return 1.0 if both_empty(i, j) else rnd(s_(i, j))
         dl = None if louts is None else ['lx', 'v']
-        return check_rows(out.values.tolist(), list(out.columns), lrows, rrows, lcols, rcols, 'id', 'rid', dl, routs,
+        dr = None if routs is None else ['ry', 'id']
+        return check_rows(out.values.tolist(), list(out.columns), lrows, rrows, lcols, rcols, 'id', 'rid', dl, dr,
                           a['lp'], a['rp'], score, must, may, a['score'], with_id=True)
 
 
@@ -324,7 +327,7 @@ class EditDistanceJoin(object):
         lt, rt = _frames(a)
         lt0, rt0 = lt.copy(deep=True), rt.copy(deep=True)
         tok = QgramTokenizer(qval=a['qval'], padding=a['padding'], return_set=a['set_mode'])
-        louts, routs = ((['lx', 'id', 'v', 'lx'], ['ry']) if (a['outs'] or ll) else (None, None))
+        louts, routs = ((['lx', 'id', 'v', 'lx'], ['ry', 'rid', 'id', 'ry']) if (a['outs'] or ll) else (None, None))
         kw = dict(l_key_attr='id', r_key_attr='rid', l_join_attr='v', r_join_attr='w', threshold=a['t'])
         tabs = [lt, rt]
         expect = None
@@ -387,5 +390,6 @@ class EditDistanceJoin(object):
                 return float('nan')
             return lev(lv(i), rv_(j))
         dl = None if louts is None else ['lx', 'v']
-        return check_rows(out.values.tolist(), list(out.columns), lrows, rrows, lcols, rcols, 'id', 'rid', dl, routs,
+        dr = None if routs is None else ['ry', 'id']
+        return check_rows(out.values.tolist(), list(out.columns), lrows, rrows, lcols, rcols, 'id', 'rid', dl, dr,
                           a['lp'], a['rp'], score, must, may, a['score'], with_id=True)
